@@ -5,6 +5,6 @@ cd "$(dirname "$0")"
 export GOFLAGS=-mod=mod GOPROXY=off GOSUMDB=off GOTOOLCHAIN=local
 command -v java >/dev/null
 test -f /opt/veriftools/tla/tla2tools.jar
-(cd harness && go build -tags verif -o /dev/null . && go build -race -tags verif -o /dev/null . )
+(cd harness && go build -tags verif -o /dev/null . && go build -race -tags verif -o /dev/null . && go build -tags "verif mutexlog" -o /dev/null ./mutexlog && go build -o /dev/null ./extract)
 python3 -c "import json,sys; json.load(open('MANIFEST.json')); json.load(open('known_findings.json'))"
 echo setup ok
